@@ -8,20 +8,48 @@ from fractions import Fraction
 
 from common import CORPUS_DIR, InfraError, call, frac, rat, unrat
 
-RULE = ("plain intervals: end points and arguments on the dyadic grid k/16 (|k|<=4096) so float + - * and /2^j are exact, ops "
-        "mk/set_start/set_end/contains/containsI/overlaps/intersection/add/sub/mul/div/round/length/gt/lt with arguments at the "
-        "end points, just inside/outside, far away, int and float, scalars <0, =0, >0; a second stream of arbitrary doubles "
-        "(1e-300..1e300) goes through the oracle with relative tolerance 1e-12. angle intervals: lengths "
-        "{0, tiny, pi-eps, pi, pi+eps, 2pi-eps, random} at positions across +-pi and +-2pi (constructor arguments up to +-6pi), "
-        "angles at the end points +- 2pi k, inside, outside, int and float. distinct = distinct canonical JSON of the case; "
-        "non-trivial = the case hits an end point, a wrap-around, a long (>pi) interval, a non-positive scalar or an error branch")
+RULE = ("plain intervals: end points and arguments on the dyadic grid k/16 (|k|<=4096) so float + - * and /2^j are exact (in float32 too), "
+        "ops mk/set_start/set_end/contains/in/containsI/overlaps/intersection/add/sub/mul/div/round/length/gt/lt with arguments at the "
+        "end points, just inside/outside, far away, as int / float / numpy float64 float32 int64 int32, scalars <0, =0, -0.0, >0, Python "
+        "zero divisors; a second stream of arbitrary doubles (1e-300..1e300, denormals, DBL_MAX) goes through the oracle with relative "
+        "tolerance 1e-12. histories (kind prog / aprog): ONE object driven through 3-9 steps - setters after construction and after "
+        "queries, several in a row, same value / other bound handed back, crossing or out-of-range values (rejected) followed by further "
+        "steps, arithmetic / rounding / intersection results fed into the next step, copy / deepcopy / pickle / Interval(*i) copies then "
+        "queries, hash / == / str / iter in between; every earlier object is re-checked at the end. angle intervals: lengths {0, tiny, "
+        "pi-eps, pi, pi+eps, 2pi-eps, random}, positions across +-pi and +-2pi, bounds exactly at -2pi -pi 0 pi 2pi, constructor arguments "
+        "up to 300 turns away and at whole multiples of 2pi, int / numpy arguments; angles at the end points +- 2pi k (k to +-1000), "
+        "inside, outside, huge (1e5), int / float / numpy float64 int64 float32; contains(interval) in every relative position (before, "
+        "touching, inside, sticking out, gap, covering the gap, whole turns apart); make_valid_orientation(_interval) at multiples of 2pi "
+        "up to 450 turns. DIMENSIONS lists every member of both classes with its variation and is checked against the real classes on "
+        "every run. distinct = distinct canonical JSON of the case; non-trivial = the case hits an end point, a wrap-around, a long "
+        "(>pi) interval, a non-positive scalar, a history step or an error branch")
 ASSUMPTIONS = ["float rounding inside + - * / and math.fmod is modelled as exact rational arithmetic; the correspondence is exact on "
-               "the dyadic grid and uses a 1e-9 band elsewhere",
-               "angles within 1e-9 (mod 2pi) of an interval end point are 'ambiguous' for the oracle (the property is tolerance-guarded)"]
+               "the dyadic grid and uses a 1e-9 band elsewhere (1e-5 when a numpy float32 takes part: the library then computes in 24 bits)",
+               "angles within 1e-9 (mod 2pi) of an interval end point are 'ambiguous' for the oracle (the property is tolerance-guarded); "
+               "so are constructor arguments within 1e-9 of a whole multiple of 2pi for the CHOICE of representative (the denoted set is still judged) "
+               "and lengths within 1e-9 of 2pi for acceptance",
+               "not admissible, no verdict: zero divisors (Python zero: ZeroDivisionError is compared with the model; numpy zero gives inf/nan), "
+               "results beyond 1e+-300, NaN / inf, fixed-width numpy integers that overflow, Fraction / Decimal / bool scalars",
+               "mixed-class queries are outside the quantifier and not generated: Interval.contains(AngleInterval) (raises TypeError today), "
+               "AngleInterval.contains(plain Interval), `angle_interval in angle_interval` (AngleInterval.__contains__ is declared for numbers "
+               "only and raises TypeError for an interval; .contains(interval) is the entry point that is checked)",
+               "an AngleInterval setter that would make the length >= 2pi is not executed (the setters do not re-check the length; the object "
+               "then reports every angle as a member, C16_angle_long_all)"]
 EXTRA_MODULES = ['CRProps.T16']      # translator tie: Gen.Src (regenerated from /repo every run) = hand model
 REQUIRED_BUCKETS = ["plain/contains", "plain/mul-neg", "plain/div-neg", "plain/mk-reject", "plain/intersection-none",
                     "angle/long", "angle/int-arg", "angle/wrap", "angle/containsI", "angle/shift", "plain/arbitrary-floats",
-                    "angle/setter-then-query"]
+                    "angle/setter-then-query",
+                    # generator audit (dimension table)
+                    "dimensions/checked", "plain/numpy-operand", "plain/32bit-operand", "plain/int-operand", "plain/zero-length", "plain/div-zero",
+                    "plain/huge", "plain/in", "plain/inI",
+                    "prog/chain", "prog/model-trace", "prog/setter-ok", "prog/setter-rejected", "prog/several-setters", "prog/setter-after-query",
+                    "prog/setter-same-or-other-bound", "prog/op-after-failed-op", "prog/noise", "prog/32bit-operand",
+                    "prog/copy-copy", "prog/copy-deepcopy", "prog/copy-pickle", "prog/copy-ctor-from-iter", "prog/copy-ctor-from-props",
+                    "angle/bound-at-pi-or-2pi", "angle/ctor-many-turns", "angle/numpy-arg", "angle/float32", "angle/huge-theta", "angle/zero-length",
+                    "angle/a_rel", "angle/containsI-true", "angle/containsI-false", "angle/shift-many-turns",
+                    "aprog/setter-ok", "aprog/setter-rejected", "aprog/several-setters", "aprog/start-setter", "aprog/op-after-failed-op",
+                    "aprog/chain", "aprog/copy", "aprog/query", "aprog/model-trace",
+                    "norm/make_valid_orientation", "norm/make_valid_orientation_interval", "norm/many-turns"]
 
 BAND = Fraction(1, 10 ** 9)
 BAND32 = Fraction(1, 10 ** 5)        # cases in which a numpy float32 takes part (24-bit arithmetic inside the library)
@@ -87,6 +115,112 @@ def _tau():
     return TWO_PI
 
 
+# ------------------------------------------------------------------------------------------------ dimension table
+# Every constructor parameter, settable attribute and public operation of the anchored classes (and the two normalisation
+# functions) with how the generators vary it, or why it lies outside the property. `check_dimensions` compares the table with
+# the real classes on every run: a member / parameter / instance attribute the table does not know => exit 2.
+V, O = "varied", "outside"
+DIMENSIONS = {
+    # --- Interval
+    "Interval.__init__(start,end)": (V, "grid k/16 and arbitrary doubles 1e-300..1e300, int / float / numpy float64 float32 int64 int32, 0 and -0.0, "
+                                        "start == end, start > end (rejected); also reached through copies `Interval(*i)` / `Interval(i.start, i.end)`"),
+    "Interval.start[setter]": (V, "plain ops set_start and histories (kind prog): after construction, after queries, several in a row, the same value / "
+                                  "the other bound handed back, crossing values (rejected, then further steps on the object)"),
+    "Interval.end[setter]": (V, "as start"),
+    "Interval.length[ro]": (V, "query op `length`, also inside histories"),
+    "Interval.contains(other)": (V, "numbers of every scalar type at / next to the bounds and far away; Interval arguments in every relative position; "
+                                    "an AngleInterval argument to a plain Interval is a mixed-class query the property does not define (TypeError today): not generated"),
+    "Interval.__contains__(value)": (V, "every contains case is also asked through `in` (numbers and intervals)"),
+    "Interval.overlaps(interval)": (V, "every relative position incl. touching end points and zero-length intervals"),
+    "Interval.intersection(other)": (V, "as overlaps; result None / interval; result fed into further steps (history op inter)"),
+    "Interval.__add__(other)": (V, "int / float / numpy scalars; results fed into further operations"),
+    "Interval.__sub__(other)": (V, "as __add__"),
+    "Interval.__mul__(other)": (V, "scalars < 0, 0, -0.0, > 0 of every scalar type; chains"),
+    "Interval.__truediv__(other)": (V, "scalars of either sign (+-2^j on the grid, arbitrary doubles in the float stream); Python zero => "
+                                       "ZeroDivisionError (correspondence only, object must be untouched); numpy zero is not admissible (inf/nan)"),
+    "Interval.__round__(n)": (V, "n in None, 0, 1, 2, -1 on int / float / numpy bounds; inside chains"),
+    "Interval.__gt__(other)": (V, "number and interval operand (not named by the property: compared with the model and the order semantics)"),
+    "Interval.__lt__(other)": (V, "as __gt__"),
+    "Interval.__eq__(other)": (O, "equality is C12's subject; used as a read-only query in histories (self, copy, a number), must not disturb the object"),
+    "Interval.__hash__()": (O, "as __eq__; called between steps of histories"),
+    "Interval.__iter__()": (V, "copies `Interval(*i)` and read-only `tuple(i)` in histories"),
+    "Interval.__str__()": (O, "text output is not part of the property; called between steps of histories"),
+    "Interval<instance>": (V, "instance attributes {_start, _end}: objects are copied by copy / deepcopy / pickle and queried / mutated afterwards; "
+                              "the original is re-checked at the end of the history"),
+    # --- AngleInterval
+    "AngleInterval._TOLERANCE": (O, "class constant: read and handed to the model as eps; angles within 1e-9 of an end point are ambiguous"),
+    "AngleInterval.__init__(start,end)": (V, "lengths 0, tiny, around pi, up to 2pi-1e-6, >= 2pi (rejected), start > end (rejected); positions across +-pi, "
+                                             "+-2pi, bounds exactly at -2pi -pi 0 pi 2pi, int arguments, numpy float64/int64/float32, up to 300 turns away, at "
+                                             "and next to whole multiples of 2pi"),
+    "AngleInterval.start[setter]": (V, "a_setter and histories (kind aprog): new length / same value / the other bound / absolute +-2pi, +-pi, ints / crossing "
+                                       "(rejected) / outside [-2pi,2pi] (rejected), several in a row, queries before and after; a setter that would make "
+                                       "the length >= 2pi leaves the property's quantifier and is not executed"),
+    "AngleInterval.end[setter]": (V, "as start"),
+    "AngleInterval.contains(other)": (V, "angles: end points +- 2pi k (k up to +-1000), inside, outside, gap middle, huge (1e5), int / float / numpy; "
+                                         "intervals: every relative position incl. wrap-around, gap, whole turns apart, zero length; a plain Interval "
+                                         "argument is a mixed-class query: not generated"),
+    "AngleInterval.__contains__(value)": (V, "every angle query is asked through both; an interval argument to `in` is outside its declared domain "
+                                             "(numbers only; raises TypeError today): not generated"),
+    "AngleInterval.intersect(other)": (O, "raises NotImplementedError by design; the property speaks of intersection of plain intervals only"),
+    "AngleInterval<inherited>": (O, "overlaps / intersection / * / / / round / < / > / length inherited from Interval are linear, not modular; the property "
+                                    "claims them for plain intervals only. __add__ / __sub__ (inherited, re-normalising through type(self)) ARE varied: "
+                                    "shifts by every scalar type up to 50 turns, chained in histories"),
+    "AngleInterval<instance>": (V, "instance attributes {_start, _end}: copy / deepcopy / pickle / AngleInterval(*i) then queries and setters"),
+    # --- module functions
+    "make_valid_orientation(angle)": (V, "whole multiples of 2pi, next to them, up to 450 turns, ints (correspondence with the model; tied by T16)"),
+    "make_valid_orientation_interval(angle_start,angle_end)": (V, "as above with lengths 0 .. 2pi-1e-6; oracle: same angles, inside [-2pi,2pi]"),
+    "<reflected operands>": (O, "__radd__ / __rsub__ / __rmul__ / __rtruediv__ are not defined (number op Interval raises TypeError by design); "
+                                "check_dimensions reports them if they appear"),
+}
+_IGNORED = {"__module__", "__doc__", "__dict__", "__weakref__", "__qualname__", "__annotations__", "__firstlineno__", "__static_attributes__",
+            "__annotate_func__", "__annotations_cache__"}
+
+
+def real_dimensions():
+    import inspect
+    from commonroad.common import util
+    from commonroad.common.util import AngleInterval, Interval
+    found = set()
+    for c in (Interval, AngleInterval):
+        for n, o in vars(c).items():
+            if n in _IGNORED:
+                continue
+            if isinstance(o, property):
+                found.add(f"{c.__name__}.{n}[{'setter' if o.fset else 'ro'}]")
+            elif inspect.isfunction(o) or isinstance(o, (classmethod, staticmethod)):
+                f = o if inspect.isfunction(o) else o.__func__
+                found.add(f"{c.__name__}.{n}({','.join(list(inspect.signature(f).parameters)[1:])})")
+            else:
+                found.add(f"{c.__name__}.{n}")
+    problems = []
+    for c in (Interval, AngleInterval):
+        keys = set(vars(c(0, 1)).keys())
+        if keys != {"_start", "_end"}:
+            problems.append(f"{c.__name__} instances now carry attributes {sorted(keys)} (table: _start, _end)")
+    if AngleInterval.__mro__[1:] != (Interval, object):
+        problems.append(f"AngleInterval bases changed: {AngleInterval.__mro__}")
+    subs = sorted(n for n, o in vars(util).items() if inspect.isclass(o) and issubclass(o, Interval))
+    if subs != ["AngleInterval", "Interval"]:
+        problems.append(f"interval classes in util.py: {subs}")
+    for fn in ("make_valid_orientation", "make_valid_orientation_interval"):
+        f = getattr(util, fn, None)
+        found.add(f"{fn}({','.join(inspect.signature(f).parameters)})" if f else f"{fn}<missing>")
+    return found, problems
+
+
+def check_dimensions():
+    """The table must name exactly the members the real classes have."""
+    found, problems = real_dimensions()
+    pseudo = {k for k in DIMENSIONS if "<" in k}
+    unknown = sorted(found - set(DIMENSIONS))
+    stale = sorted(set(DIMENSIONS) - pseudo - found)
+    if unknown:
+        problems.append(f"members / signatures unknown to the C16 dimension table: {unknown}")
+    if stale:
+        problems.append(f"dimension table entries without a real member: {stale}")
+    return problems
+
+
 # ------------------------------------------------------------------------------------------------ plain intervals
 
 def grid(r, lim=4096):
@@ -101,16 +235,16 @@ def gen_plain(ctx):
     a, b = sorted([grid(r), grid(r)], key=float)
     if r.random() < 0.1:
         b = a
-    op = r.choice(["mk", "set_start", "set_end", "contains", "contains", "containsI", "overlaps", "intersection", "add", "sub",
+    op = r.choice(["mk", "set_start", "set_end", "contains", "contains", "in", "inI", "containsI", "overlaps", "intersection", "add", "sub",
                    "mul", "mul", "div", "div", "round", "length", "gt", "lt", "gtI", "ltI"])
     case = {"kind": "plain", "op": op, "a": a, "b": b}
     near = [a, b, a - 1 / 16, a + 1 / 16, b - 1 / 16, b + 1 / 16, (a + b) / 2, grid(r), int(a), int(b)]
     if op == "mk":
         if r.random() < 0.5:
             case["a"], case["b"] = (b, a) if a != b else (a + 1, a)
-    elif op in ("set_start", "set_end", "contains", "gt", "lt", "add", "sub"):
+    elif op in ("set_start", "set_end", "contains", "in", "gt", "lt", "add", "sub"):
         case["x"] = r.choice(near)
-    elif op in ("containsI", "overlaps", "intersection", "gtI", "ltI"):
+    elif op in ("containsI", "inI", "overlaps", "intersection", "gtI", "ltI"):
         c, d = sorted([r.choice(near), r.choice(near)], key=float)
         case["c"], case["d"] = c, d
     elif op == "mul":
@@ -321,7 +455,7 @@ def run_plain(ctx, raw):
         args = {k: (rat(v) if k in ("a", "b", "c", "d", "x") else v) for k, v in case.items() if k not in ("kind", "op", "n")}
         if op == "round":
             args["ra"], args["rb"] = rat(round(case["a"], case["n"])), rat(round(case["b"], case["n"]))
-        model = ctx.driver.ask("C16", op, args)
+        model = ctx.driver.ask("C16", {"in": "contains", "inI": "containsI"}.get(op, op), args)
         ctx.compare(raw, impl_c, model, f"Interval.{op} vs CR.Iv")
         if op == "div" and frac(case["x"]) == 0:
             ctx.tag("plain/div-zero")
@@ -1175,6 +1309,15 @@ def run_case(ctx, case):
 
 
 def run(ctx):
+    problems = check_dimensions()
+    ctx.tag("dimensions/checked")
+    _run_cases(ctx)
+    if problems and not ctx.failures:
+        # code growth the generators do not know about: never a silent pass (a concrete failure found anyway takes precedence)
+        raise InfraError("C16 dimension table vs commonroad.common.util: " + "; ".join(problems))
+
+
+def _run_cases(ctx):
     for p in sorted(glob.glob(os.path.join(CORPUS_DIR, "C16", "*.json"))):
         run_case(ctx, json.load(open(p)))
     for _ in range(ctx.n(2500)):
@@ -1196,3 +1339,44 @@ search = run
 
 def replay(ctx, case):
     run_case(ctx, case)
+
+
+class _Stub:
+    """Oracle-only context for shrinking (no driver, no bookkeeping)."""
+    driver = None
+
+    def __init__(self):
+        self.failures, self.excluded = [], 0
+
+    def case(self, *a, **k): pass
+    def tag(self, *a): pass
+    def compare(self, *a, **k): return True
+
+    def fail(self, key, what, case, detail=None):
+        from common import Failure
+        self.failures.append(Failure(key, what, case, detail))
+
+
+def shrink(case, key):
+    """Histories: drop steps while the same finding key is still produced."""
+    if case.get("kind") not in ("prog", "aprog"):
+        return case
+
+    def fails(steps):
+        st = _Stub()
+        try:
+            run_case(st, dict(case, steps=steps))
+        except Exception:  # noqa
+            return False
+        return any(f.key == key for f in st.failures)
+    steps = list(case["steps"])
+    if not fails(steps):
+        return case
+    i = 0
+    while i < len(steps):
+        cand = steps[:i] + steps[i + 1:]
+        if fails(cand):
+            steps = cand
+        else:
+            i += 1
+    return dict(case, steps=steps)
